@@ -1,3 +1,217 @@
-From Coq Require Import List NArith Bool Arith.
+(* C04 — property theorems.  Statements closed by [exact] + Print Assumptions.
+   [repaired] is the tunnel code with fixes/C04-*.diff applied (what the model
+   of the driver runs); [original] is the code as it was, for which the two
+   liveness clauses are refuted below. *)
+From Coq Require Import List NArith Bool Arith Ascii.
 From Martian.C04 Require Import Model Proofs.
 Import ListNotations.
+Open Scope char_scope.
+
+(* ---------------- safety: every interleaving, either configuration -------------- *)
+
+(* In order, exactly once, client -> target: what reached the target, then
+   what sits in the proxy's buffers, then what the proxy has not read yet, is
+   exactly what the client wrote after the CONNECT head ... *)
+Theorem C04_prefix_c2t : forall c early peeked tr s,
+  reachable c early peeked tr s ->
+  t_in s ++ wbuf s ++ rbuf s ++ c2t_src s = c_sent s.
+Proof. exact prefix_c2t. Qed.
+Print Assumptions C04_prefix_c2t.
+
+(* ... and target -> client. *)
+Theorem C04_prefix_t2c : forall c early peeked tr s,
+  reachable c early peeked tr s -> c_in s ++ t2c_src s = t_sent s.
+Proof. exact prefix_t2c. Qed.
+Print Assumptions C04_prefix_t2c.
+
+(* The ghost streams are what the ends wrote (early data and bytes behind the
+   downstream proxy's 200 head included), and the open flags what they did. *)
+Theorem C04_sent_is_what_was_written : forall c early peeked tr s,
+  reachable c early peeked tr s ->
+  c_sent s = early ++ client_bytes tr /\ t_sent s = peeked ++ target_bytes tr /\
+  c_wr_open s = negb (client_shut tr) /\ t_wr_open s = negb (target_shut tr).
+Proof. exact sent_is_written. Qed.
+Print Assumptions C04_sent_is_what_was_written.
+
+(* End of stream is never shown early: only after the sender shut, and after
+   all of its bytes. *)
+Theorem C04_no_premature_eos : forall c early peeked tr s,
+  reachable c early peeked tr s ->
+  (t_eos s = true -> c_wr_open s = false /\ t_in s = c_sent s) /\
+  (c_eos s = true -> t_wr_open s = false /\ c_in s = t_sent s).
+Proof. exact no_premature_eos. Qed.
+Print Assumptions C04_no_premature_eos.
+
+(* The connections are released only when both ends have shut and everything
+   was delivered. *)
+Theorem C04_released_only_when_both_done : forall c early peeked tr s,
+  reachable c early peeked tr s -> closed s = true ->
+  c_wr_open s = false /\ t_wr_open s = false /\ t_in s = c_sent s /\ c_in s = t_sent s.
+Proof. exact released_only_when_both_done. Qed.
+Print Assumptions C04_released_only_when_both_done.
+
+(* ---------------- CONNECT failure -------------- *)
+
+Theorem C04_connect_fail_502 :
+  connect_response DialErr = mkResp 502 true false /\
+  forall st w, fail_ok st w = true <-> st = 502%N /\ w = true.
+Proof. exact connect_fail_both. Qed.
+Print Assumptions C04_connect_fail_502.
+
+(* ---------------- liveness as quiescence (repaired code) -------------- *)
+
+(* [quiescent]: no internal step (no read, no flush, no join) is enabled; the
+   boolean used by the scheduler and the driver says the same. *)
+Theorem C04_quiescentb_is_quiescent : forall c s,
+  quiescentb s = true <-> (forall l, internal l = true -> step c s l = None).
+Proof. exact quiescentb_iff. Qed.
+Print Assumptions C04_quiescentb_is_quiescent.
+
+(* Internal steps cannot go on forever, and running them reaches a quiescent
+   state without running out of fuel. *)
+Theorem C04_internal_steps_terminate : forall c s l s',
+  step c s l = Some s' -> internal l = true -> measure s' < measure s.
+Proof. exact measure_decreases. Qed.
+Print Assumptions C04_internal_steps_terminate.
+
+Theorem C04_settle_reaches_quiescence : forall c s,
+  exists s' tr, settle c (S (measure s)) s = Some s' /\ quiescentb s' = true
+                /\ Forall (fun l => internal l = true) tr /\ run c s tr = Some s'.
+Proof. exact settle_reaches_quiescence. Qed.
+Print Assumptions C04_settle_reaches_quiescence.
+
+(* Without further input nothing stays behind in the proxy: whatever the
+   interleaving, sizes, early data. *)
+Theorem C04_delivery_quiescent : forall early peeked tr s,
+  reachable repaired early peeked tr s -> quiescentb s = true ->
+  t_in s = c_sent s /\ c_in s = t_sent s.
+Proof. exact delivery_quiescent. Qed.
+Print Assumptions C04_delivery_quiescent.
+
+(* When one end has shut, the other end has seen end-of-stream (after all the
+   bytes) without waiting for anything else; when both have, both
+   connections are released. *)
+Theorem C04_eos_quiescent : forall early peeked tr s,
+  reachable repaired early peeked tr s -> quiescentb s = true ->
+  (c_wr_open s = false -> t_eos s = true /\ t_in s = c_sent s) /\
+  (t_wr_open s = false -> c_eos s = true /\ c_in s = t_sent s) /\
+  (c_wr_open s = false -> t_wr_open s = false -> closed s = true).
+Proof. exact eos_quiescent. Qed.
+Print Assumptions C04_eos_quiescent.
+
+(* Together: at every checkpoint the two ends see exactly the ideal tunnel
+   computed from what they did, for every interleaving of the internal steps. *)
+Theorem C04_checkpoint_is_ideal : forall early peeked tr s,
+  reachable repaired early peeked tr s -> quiescentb s = true ->
+  view_of s = spec_view early peeked tr.
+Proof. exact checkpoint_view. Qed.
+Print Assumptions C04_checkpoint_is_ideal.
+
+(* The executable model run by the driver (one particular schedule) shows the
+   ideal views whenever it accepts the script. *)
+Theorem C04_model_meets_spec : forall early peeked ps vs,
+  run_script repaired (init early peeked) ps = Some vs -> vs = spec_views early peeked ps.
+Proof. exact run_script_meets_spec. Qed.
+Print Assumptions C04_model_meets_spec.
+
+(* ---------------- the code as it was -------------- *)
+
+(* D5: a byte that arrived with the CONNECT head stays in the bufio.Writer. *)
+Theorem C04_delivery_quiescent_original_refuted :
+  exists early tr s, reachable original early [] tr s /\ quiescentb s = true /\ t_in s <> c_sent s.
+Proof. exact delivery_quiescent_original_refuted. Qed.
+Print Assumptions C04_delivery_quiescent_original_refuted.
+
+(* ... and only then. *)
+Theorem C04_delivery_quiescent_original_partial : forall peeked tr s,
+  reachable original [] peeked tr s -> quiescentb s = true ->
+  t_in s = c_sent s /\ c_in s = t_sent s.
+Proof. exact delivery_quiescent_original_partial. Qed.
+Print Assumptions C04_delivery_quiescent_original_partial.
+
+(* D4: the target shuts, its copy loop ends, nothing else can happen, and the
+   client has not been told. *)
+Theorem C04_eos_quiescent_original_refuted :
+  exists tr s, reachable original [] [] tr s /\ quiescentb s = true /\
+               t_wr_open s = false /\ c_eos s = false.
+Proof. exact eos_quiescent_original_refuted. Qed.
+Print Assumptions C04_eos_quiescent_original_refuted.
+
+(* What the code as it was does guarantee: once BOTH ends have shut. *)
+Theorem C04_eos_quiescent_original_partial : forall early peeked tr s,
+  reachable original early peeked tr s -> quiescentb s = true ->
+  c_wr_open s = false -> t_wr_open s = false ->
+  closed s = true /\ t_eos s = true /\ c_eos s = true /\ t_in s = c_sent s /\ c_in s = t_sent s.
+Proof. exact eos_quiescent_original_partial. Qed.
+Print Assumptions C04_eos_quiescent_original_partial.
+
+(* ---------------- the oracle is the property -------------- *)
+
+(* One end, one checkpoint: the harness's measurement (count, is-prefix flag,
+   end-of-stream flag) of a received stream [r] is accepted iff [r] is exactly
+   the stream sent and end-of-stream was seen exactly when the spec says. *)
+Theorem C04_oracle_end_is_the_property : forall r sent eos want,
+  eobs_ok (N.of_nat (length sent)) want (Some (measure_end r sent eos)) = true
+  <-> r = sent /\ eos = want.
+Proof. exact oracle_end. Qed.
+Print Assumptions C04_oracle_end_is_the_property.
+
+(* The whole case: every checkpoint of both ends ideal, and released iff both shut. *)
+Theorem C04_oracle_is_the_property : forall early peeked ps obs rel,
+  c04_ok early peeked ps obs rel = true <->
+  ideal_from early peeked false false ps obs /\
+  ((all_shut ps = true /\ rel = Some true) \/ (all_shut ps = false /\ rel = None)).
+Proof. exact c04_ok_iff. Qed.
+Print Assumptions C04_oracle_is_the_property.
+
+
+(* The oracle is not vacuous for any script: what the harness would measure on
+   the ideal views of a script (which by C04_model_meets_spec are the views of
+   the repaired model) is accepted, checkpoint by checkpoint. *)
+Theorem C04_oracle_accepts_ideal_tunnel : forall early peeked ps,
+  c04_ok_from (N.of_nat (length early)) (N.of_nat (length peeked)) false false (map nphase_of ps)
+    (map (measure_view (early ++ concat (map pa_c ps)) (peeked ++ concat (map pa_t ps)))
+         (spec_views early peeked ps)) = true.
+Proof. exact oracle_accepts_ideal. Qed.
+Print Assumptions C04_oracle_accepts_ideal_tunnel.
+
+(* ---------------- non-vacuity -------------- *)
+
+(* A reachable, quiescent, non-trivial state of the repaired tunnel: early
+   data, both directions, a half close answered by more data, release. *)
+Example C04_example_trace :
+  exists s, reachable repaired ["e"] ["p"]
+              [ClientSend ["x"; "y"]; Drain1; TargetSend ["z"]; Copy2 1; Copy1 1; ClientShut;
+               Copy1 5; Copy2 7; Eof1; TargetSend ["w"]; Copy2 1; TargetShut; Eof2; Join] s
+            /\ quiescentb s = true
+            /\ view_of s = mkView ["e"; "x"; "y"] true ["p"; "z"; "w"] true true.
+Proof. eexists. split; [vm_compute; reflexivity|]. split; vm_compute; reflexivity. Qed.
+
+Example C04_example_script :
+  run_script repaired (init ["e"] [])
+    [mkPact ["x"] false ["z"; "z"] false; mkPact [] true [] false; mkPact [] false ["w"] true]
+  = Some [mkView ["e"; "x"] false ["z"; "z"] false false;
+          mkView ["e"; "x"] true ["z"; "z"] false false;
+          mkView ["e"; "x"] true ["z"; "z"; "w"] true true].
+Proof. vm_compute. reflexivity. Qed.
+
+(* the same script on the code as it was: the early byte and the end of
+   stream are held back until both ends have shut *)
+Example C04_example_script_original :
+  run_script original (init ["e"] [])
+    [mkPact ["x"] false ["z"; "z"] false; mkPact [] true [] false; mkPact [] false ["w"] true]
+  = Some [mkView [] false ["z"; "z"] false false;
+          mkView [] false ["z"; "z"] false false;
+          mkView ["e"; "x"] true ["z"; "z"; "w"] true true].
+Proof. vm_compute. reflexivity. Qed.
+
+(* the oracle accepts the ideal measurement of that script and rejects a stalled one *)
+Example C04_example_oracle :
+  c04_ok 1 0 [mkNphase 1 false 2 false; mkNphase 0 true 0 false; mkNphase 0 false 1 true]
+    [mkCobs (Some (mkEobs 2 true false)) (Some (mkEobs 2 true false));
+     mkCobs (Some (mkEobs 2 true true)) (Some (mkEobs 2 true false));
+     mkCobs (Some (mkEobs 2 true true)) (Some (mkEobs 3 true true))] (Some true) = true
+  /\
+  c04_ok 1 0 [mkNphase 1 false 2 false]
+    [mkCobs (Some (mkEobs 0 true false)) (Some (mkEobs 2 true false))] None = false.
+Proof. split; vm_compute; reflexivity. Qed.
